@@ -1,4 +1,5 @@
-//! Workload / configuration generator: everything derives from one seed.
+//! Workload / configuration generator: everything derives from one seed.  The `focus` (a
+//! property id) selects a profile: which plans, which operations, which faults.
 
 use crate::rng::Rng;
 use crate::simrt::{SchedConfig, Strategy};
@@ -19,6 +20,9 @@ pub const PLANS: [&str; 11] = [
     "ConcurrentImmix",
 ];
 
+const NR: u64 = 16;
+const NG: u64 = 12;
+
 fn rr(rng: &mut Rng, g_pct: u64) -> RootRef {
     if rng.chance(g_pct, 100) {
         RootRef { g: true, i: rng.below(NG) as u16 }
@@ -27,68 +31,453 @@ fn rr(rng: &mut Rng, g_pct: u64) -> RootRef {
     }
 }
 
-const NR: u64 = 16;
-const NG: u64 = 12;
-
-pub fn gen_size(rng: &mut Rng) -> usize {
+pub fn gen_size(rng: &mut Rng, big_pct: u64) -> usize {
+    let x = rng.below(100);
+    if x < big_pct {
+        return if rng.chance(1, 4) { rng.range(65536, 512 * 1024) as usize } else { rng.range(4096, 65536) as usize };
+    }
     match rng.below(100) {
-        0..=54 => rng.range(32, 256) as usize,
-        55..=79 => rng.range(256, 4096) as usize,
-        80..=89 => {
-            // boundaries: line 256, page 4096, 8K, 16K, 32K (TLAB/block), LOS thresholds
+        0..=59 => rng.range(32, 256) as usize,
+        60..=84 => rng.range(256, 4096) as usize,
+        _ => {
+            // boundaries: line 256, page 4096, 8K (LOS threshold of copying plans), 16K, 32K (TLAB / block)
             let b = *rng.pick(&[256usize, 1024, 2048, 4096, 8192, 16384, 32768]);
             (b as i64 + rng.range(0, 32) as i64 - 16).max(32) as usize
         }
-        90..=97 => rng.range(4096, 65536) as usize,
-        _ => rng.range(65536, 512 * 1024) as usize,
     }
 }
 
-pub fn gen_program(rng: &mut Rng, nops: usize, focus: &str) -> Vec<Op> {
-    let mut ops = Vec::with_capacity(nops);
-    let g_pct = 25;
-    for _ in 0..nops {
-        let x = rng.below(100);
-        let op = match x {
-            0..=39 => Op::Alloc {
-                size: gen_size(rng),
-                align: if rng.chance(1, 4) { 16 } else { 8 },
-                offset: if rng.chance(1, 5) { 8 } else { 0 },
-                sem: match rng.below(20) {
-                    0 => SEM_IMMORTAL,
-                    1 => SEM_LOS,
-                    2 | 3 => SEM_NONMOVING,
-                    _ => SEM_DEFAULT,
-                },
-                nrefs: match rng.below(10) {
-                    0 => 0,
-                    1..=6 => rng.range(1, 4) as u16,
-                    7 | 8 => rng.range(4, 16) as u16,
-                    _ => rng.range(16, 64) as u16,
-                },
-                kind: 0,
-                root: rr(rng, g_pct),
-            },
-            40..=64 => Op::Write {
-                src: rr(rng, g_pct),
-                field: rng.below(64) as u16,
-                val: if rng.chance(1, 8) { None } else { Some(rr(rng, g_pct)) },
-                mode: rng.below(2) as u8,
-            },
-            65..=76 => Op::Load {
-                src: rr(rng, g_pct),
-                field: rng.below(64) as u16,
-                dst: rr(rng, g_pct),
-            },
-            77..=86 => Op::Drop { root: rr(rng, g_pct) },
-            87..=90 => Op::Move { from: rr(rng, g_pct), to: rr(rng, g_pct) },
-            91..=93 => Op::Gc { force: true, exhaustive: rng.chance(1, 2) },
-            94..=95 => Op::Poll,
-            _ => Op::Yield,
-        };
-        ops.push(op);
+/// Relative weights of the operation kinds.
+#[derive(Clone, Debug)]
+pub struct Mix {
+    pub alloc: u32,
+    pub alloc_opt: u32,
+    pub write: u32,
+    pub load: u32,
+    pub copy_region: u32,
+    pub drop: u32,
+    pub mv: u32,
+    pub gc: u32,
+    pub poll: u32,
+    pub pin: u32,
+    pub add_ref: u32,
+    pub get_referent: u32,
+    pub add_fin: u32,
+    pub pop_fin: u32,
+    pub ephemeron: u32,
+    pub fork: u32,
+    pub inject: u32,
+    pub probe: u32,
+    pub rebind: u32,
+    pub yield_: u32,
+    pub big_pct: u64,
+    pub special_sem_pct: u64,
+    pub global_pct: u64,
+}
+
+impl Default for Mix {
+    fn default() -> Self {
+        Mix {
+            alloc: 36,
+            alloc_opt: 1,
+            write: 24,
+            load: 10,
+            copy_region: 2,
+            drop: 9,
+            mv: 4,
+            gc: 3,
+            poll: 1,
+            pin: 1,
+            add_ref: 2,
+            get_referent: 1,
+            add_fin: 1,
+            pop_fin: 1,
+            ephemeron: 1,
+            fork: 0,
+            inject: 0,
+            probe: 0,
+            rebind: 0,
+            yield_: 2,
+            big_pct: 6,
+            special_sem_pct: 15,
+            global_pct: 25,
+        }
     }
-    let _ = focus;
+}
+
+fn gen_alloc(rng: &mut Rng, m: &Mix) -> Op {
+    Op::Alloc {
+        size: gen_size(rng, m.big_pct),
+        align: if rng.chance(1, 4) { 16 } else { 8 },
+        offset: if rng.chance(1, 5) { 8 } else { 0 },
+        sem: if rng.chance(m.special_sem_pct, 100) {
+            *rng.pick(&[SEM_IMMORTAL, SEM_LOS, SEM_LOS, SEM_NONMOVING, SEM_NONMOVING])
+        } else {
+            SEM_DEFAULT
+        },
+        nrefs: match rng.below(10) {
+            0 => 0,
+            1..=6 => rng.range(1, 4) as u16,
+            7 | 8 => rng.range(4, 16) as u16,
+            _ => rng.range(16, 64) as u16,
+        },
+        kind: 0,
+        root: rr(rng, m.global_pct),
+    }
+}
+
+pub fn gen_op(rng: &mut Rng, m: &Mix) -> Op {
+    let g = m.global_pct;
+    let weights = [
+        m.alloc, m.alloc_opt, m.write, m.load, m.copy_region, m.drop, m.mv, m.gc, m.poll, m.pin, m.add_ref,
+        m.get_referent, m.add_fin, m.pop_fin, m.ephemeron, m.fork, m.inject, m.probe, m.rebind, m.yield_,
+    ];
+    let total: u32 = weights.iter().sum();
+    let mut x = rng.below(total as u64) as u32;
+    let mut k = 0;
+    for (i, wgt) in weights.iter().enumerate() {
+        if x < *wgt {
+            k = i;
+            break;
+        }
+        x -= *wgt;
+    }
+    match k {
+        0 => gen_alloc(rng, m),
+        1 => {
+            let huge = rng.chance(1, 6);
+            Op::AllocOpt {
+                size: if huge { *rng.pick(&[usize::MAX / 2, 1 << 40, 1 << 30, 64 << 20]) } else { gen_size(rng, 30) },
+                align: 8,
+                offset: 0,
+                sem: if rng.chance(1, 4) { SEM_LOS } else { SEM_DEFAULT },
+                nrefs: rng.below(4) as u16,
+                root: rr(rng, g),
+                overcommit: rng.chance(1, 2),
+                at_safepoint: rng.chance(1, 2),
+                oom_call: rng.chance(1, 2),
+            }
+        }
+        2 => Op::Write {
+            src: rr(rng, g),
+            field: rng.below(64) as u16,
+            val: if rng.chance(1, 8) { None } else { Some(rr(rng, g)) },
+            mode: rng.below(2) as u8,
+        },
+        3 => Op::Load { src: rr(rng, g), field: rng.below(64) as u16, dst: rr(rng, g) },
+        4 => Op::CopyRegion {
+            src: rr(rng, g),
+            sstart: rng.below(16) as u16,
+            dst: rr(rng, g),
+            dstart: rng.below(16) as u16,
+            len: rng.range(1, 24) as u16,
+            mode: rng.below(2) as u8,
+        },
+        5 => Op::Drop { root: rr(rng, g) },
+        6 => Op::Move { from: rr(rng, g), to: rr(rng, g) },
+        7 => Op::Gc { force: true, exhaustive: rng.chance(1, 2) },
+        8 => Op::Poll,
+        9 => {
+            if rng.chance(3, 5) {
+                Op::Pin { root: rr(rng, g) }
+            } else {
+                Op::Unpin { root: rr(rng, g) }
+            }
+        }
+        10 => Op::AddRef { kind: rng.range(1, 3) as u8, referent: rr(rng, g), root: rr(rng, g) },
+        11 => Op::GetReferent { src: rr(rng, g), dst: rr(rng, g) },
+        12 => Op::AddFinalizer { root: rr(rng, g) },
+        13 => Op::PopFinalized { dst: if rng.chance(1, 3) { Some(rr(rng, g)) } else { None } },
+        14 => Op::AddEphemeron { key: rr(rng, g), value: rr(rng, g) },
+        15 => Op::ForkCycle,
+        16 => Op::InjectPackets { n: rng.range(1, 6) as u16, fanout: rng.below(4) as u8 },
+        17 => Op::Probe,
+        18 => Op::Rebind { flush_first: rng.chance(1, 2) },
+        _ => Op::Yield,
+    }
+}
+
+/// Structured snippets that create the in-flight state a property is about.
+fn snippet(rng: &mut Rng, focus: &str, m: &Mix, out: &mut Vec<Op>) {
+    let l = |i: u16| RootRef { g: false, i };
+    let gl = |i: u16| RootRef { g: true, i };
+    match focus {
+        // old -> young: promote a holder, store fresh young objects into it, drop the young roots
+        "C05" | "C17" | "C01" | "C12" => {
+            let holder = if rng.chance(1, 2) { gl(rng.below(NG) as u16) } else { l(rng.below(NR) as u16) };
+            out.push(Op::Alloc { size: 64 + 8 * 24, align: 8, offset: 0, sem: if rng.chance(1, 5) { SEM_LOS } else { SEM_DEFAULT }, nrefs: 24, kind: 0, root: holder });
+            if rng.chance(2, 3) {
+                out.push(Op::Gc { force: true, exhaustive: rng.chance(1, 3) });
+            }
+            for j in 0..rng.range(2, 8) {
+                let y = l(((j + 3) % NR) as u16);
+                out.push(gen_alloc(rng, m));
+                if let Some(Op::Alloc { root, sem, .. }) = out.last_mut() {
+                    *root = y;
+                    *sem = SEM_DEFAULT;
+                }
+                if rng.chance(1, 4) {
+                    out.push(Op::CopyRegion { src: y, sstart: 0, dst: holder, dstart: j as u16, len: 3, mode: rng.below(2) as u8 });
+                }
+                out.push(Op::Write { src: holder, field: j as u16, val: Some(y), mode: rng.below(2) as u8 });
+                out.push(Op::Drop { root: y });
+            }
+            out.push(Op::Gc { force: true, exhaustive: false });
+            out.push(Op::Load { src: holder, field: rng.below(8) as u16, dst: l(1) });
+        }
+        // heavy fan-in: many slots refer to one object
+        "C18" => {
+            let t = gl(rng.below(NG) as u16);
+            out.push(gen_alloc(rng, m));
+            if let Some(Op::Alloc { root, sem, .. }) = out.last_mut() {
+                *root = t;
+                *sem = SEM_DEFAULT;
+            }
+            for _ in 0..rng.range(2, 6) {
+                out.push(Op::Pin { root: t });
+                out.push(Op::Write { src: rr(rng, 50), field: rng.below(32) as u16, val: Some(t), mode: rng.below(2) as u8 });
+                if rng.chance(1, 2) {
+                    out.push(Op::Unpin { root: t });
+                }
+            }
+        }
+        "C13" => {
+            // ephemeron chain k0 -> v0 = k1 -> v1 = k2 ...
+            let depth = rng.range(1, 6) as u16;
+            for d in 0..=depth {
+                out.push(Op::Alloc { size: 64, align: 8, offset: 0, sem: SEM_DEFAULT, nrefs: 2, kind: 0, root: l(d) });
+            }
+            for d in 0..depth {
+                out.push(Op::AddEphemeron { key: l(d), value: l(d + 1) });
+            }
+            for d in 1..=depth {
+                out.push(Op::Drop { root: l(d) });
+            }
+            if rng.chance(1, 3) {
+                out.push(Op::Drop { root: l(0) });
+            }
+            out.push(Op::Gc { force: true, exhaustive: rng.chance(1, 2) });
+        }
+        "C06" => {
+            let t = l(rng.below(NR) as u16);
+            let r = l(rng.below(NR) as u16);
+            out.push(gen_alloc(rng, m));
+            if let Some(Op::Alloc { root, .. }) = out.last_mut() {
+                *root = t;
+            }
+            out.push(Op::AddRef { kind: rng.range(1, 3) as u8, referent: t, root: r });
+            if rng.chance(1, 2) {
+                out.push(Op::AddFinalizer { root: t });
+            }
+            if rng.chance(2, 3) {
+                out.push(Op::Drop { root: t });
+            }
+            out.push(Op::Gc { force: true, exhaustive: rng.chance(1, 2) });
+            out.push(Op::GetReferent { src: r, dst: l(2) });
+            out.push(Op::PopFinalized { dst: None });
+        }
+        "C09" | "C34" | "C36" => {
+            // allocate-drop cycle
+            let n = rng.range(4, 40);
+            for j in 0..n {
+                out.push(gen_alloc(rng, m));
+                if let Some(Op::Alloc { root, .. }) = out.last_mut() {
+                    *root = l((j % NR) as u16);
+                }
+            }
+            for j in 0..NR {
+                if rng.chance(4, 5) {
+                    out.push(Op::Drop { root: l(j as u16) });
+                }
+            }
+            out.push(Op::Gc { force: true, exhaustive: true });
+        }
+        _ => {}
+    }
+}
+
+pub struct Profile {
+    pub plans: Vec<&'static str>,
+    pub mix: Mix,
+    pub snippet_pct: u64,
+    pub shape: &'static str,
+}
+
+fn collecting() -> Vec<&'static str> {
+    PLANS.iter().cloned().filter(|p| *p != "NoGC").collect()
+}
+
+pub fn profile(focus: &str) -> Profile {
+    let mut m = Mix::default();
+    let mut plans: Vec<&'static str> = PLANS.to_vec();
+    let mut snippet_pct = 0;
+    let mut shape = "mixed";
+    match focus {
+        "C01" => {
+            snippet_pct = 4;
+            m.rebind = 1;
+            m.probe = 0;
+        }
+        "C02" => {
+            m.alloc = 55;
+            m.rebind = 2;
+            m.drop = 14;
+            shape = "allocation-heavy, many mutators";
+        }
+        "C03" => {
+            m.alloc = 60;
+            m.alloc_opt = 3;
+            m.big_pct = 12;
+            shape = "allocation arguments with boundary bias";
+        }
+        "C04" => {
+            m.special_sem_pct = 45;
+            m.pin = 8;
+            m.drop = 14;
+            m.gc = 5;
+            shape = "non-moving / immortal / pinned objects";
+        }
+        "C05" => {
+            plans = vec!["GenCopy", "GenImmix", "StickyImmix"];
+            snippet_pct = 12;
+            m.gc = 4;
+            m.copy_region = 5;
+            shape = "old-to-young chains through the barrier";
+        }
+        "C06" => {
+            plans = collecting();
+            snippet_pct = 10;
+            m.add_ref = 8;
+            m.get_referent = 4;
+            m.add_fin = 5;
+            m.pop_fin = 5;
+            m.gc = 5;
+            shape = "reference / finalizer zoo";
+        }
+        "C07" | "C08" | "C31" => {
+            plans = collecting();
+            m.probe = 3;
+            m.special_sem_pct = 25;
+            m.big_pct = 10;
+            shape = "quiescent-point probes after exhaustive GCs";
+        }
+        "C09" => {
+            plans = collecting();
+            snippet_pct = 30;
+            m.gc = 4;
+            shape = "allocate-drop cycles";
+        }
+        "C10" => {
+            m.alloc_opt = 25;
+            m.alloc = 40;
+            m.big_pct = 25;
+            m.drop = 4;
+            shape = "fill the heap, allocation options";
+        }
+        "C11" => {
+            plans = collecting();
+            m.gc = 8;
+            m.poll = 3;
+            shape = "many mutators requesting GCs";
+        }
+        "C12" => {
+            plans = vec!["ConcurrentImmix"];
+            snippet_pct = 6;
+            m.write = 34;
+            m.copy_region = 5;
+            m.get_referent = 3;
+            m.add_ref = 3;
+            m.rebind = 1;
+            shape = "mutators racing concurrent marking";
+        }
+        "C13" => {
+            plans = collecting();
+            snippet_pct = 14;
+            m.ephemeron = 6;
+            m.gc = 5;
+            shape = "ephemeron chains";
+        }
+        "C14" => {
+            plans = collecting();
+            m.inject = 4;
+            m.gc = 8;
+            m.fork = 1;
+            shape = "GC requests, injected packets, spurious wake-ups";
+        }
+        "C15" => {
+            plans = collecting();
+            m.inject = 5;
+            m.gc = 6;
+            shape = "packet fan-out";
+        }
+        "C16" => {
+            plans = collecting();
+            m.fork = 4;
+            m.gc = 5;
+            shape = "fork round trips racing GC requests";
+        }
+        "C17" => {
+            plans = vec!["SemiSpace", "GenCopy", "GenImmix", "Immix", "StickyImmix"];
+            snippet_pct = 10;
+            m.write = 34;
+            m.gc = 5;
+            shape = "heavy fan-in under copying";
+        }
+        "C18" => {
+            plans = vec!["Immix", "StickyImmix", "ConcurrentImmix", "GenImmix", "GenCopy", "SemiSpace", "MarkSweep"];
+            snippet_pct = 10;
+            m.pin = 10;
+            m.global_pct = 50;
+            shape = "racing pins / logs / marks on shared objects";
+        }
+        "C28" | "C29" => {
+            plans = collecting();
+            m.big_pct = 30;
+            m.drop = 16;
+            m.gc = 5;
+            shape = "large-object churn over several spaces";
+        }
+        "C34" => {
+            plans = vec!["Immix", "StickyImmix", "GenImmix", "ConcurrentImmix"];
+            snippet_pct = 25;
+            m.gc = 6;
+            m.special_sem_pct = 20;
+            shape = "many Immix collections (line reuse)";
+        }
+        "C36" => {
+            plans = collecting();
+            snippet_pct = 15;
+            m.big_pct = 45;
+            m.drop = 16;
+            m.gc = 5;
+            shape = "large-object churn";
+        }
+        "C37" => {
+            plans = vec!["Compressor"];
+            m.drop = 16;
+            m.gc = 6;
+            shape = "compaction";
+        }
+        "C38" => {
+            plans = collecting();
+            m.gc = 5;
+            m.big_pct = 12;
+            shape = "dynamic heap sizing under clock faults";
+        }
+        _ => {}
+    }
+    Profile { plans, mix: m, snippet_pct, shape }
+}
+
+pub fn gen_program(rng: &mut Rng, nops: usize, focus: &str, p: &Profile) -> Vec<Op> {
+    let mut ops = Vec::with_capacity(nops + 32);
+    while ops.len() < nops {
+        if p.snippet_pct > 0 && rng.chance(p.snippet_pct, 100) {
+            snippet(rng, focus, &p.mix, &mut ops);
+        } else {
+            ops.push(gen_op(rng, &p.mix));
+        }
+    }
     ops
 }
 
@@ -96,38 +485,62 @@ pub fn gen_spec(seed: u64, focus: &str, tier: &str) -> RunSpec {
     let mut rng = Rng::new(seed ^ 0x5151_0000_0000_0000);
     let mut wl = rng.fork(1);
     let mut sr = rng.fork(2);
-    let plan = if cfg!(feature = "var_a") {
+    let prof = profile(focus);
+    let mut plan_choices: Vec<&str> = prof.plans.clone();
+    if cfg!(feature = "var_a") {
         // Compressor requires reference == object start
-        loop {
-            let p = *rng.pick(&PLANS);
-            if p != "Compressor" {
-                break p;
-            }
-        }
-    } else {
-        *rng.pick(&PLANS)
+        plan_choices.retain(|p| *p != "Compressor");
+    }
+    if plan_choices.is_empty() {
+        plan_choices = vec!["Immix"];
+    }
+    let plan = *rng.pick(&plan_choices);
+    let workers = match focus {
+        "C17" | "C18" | "C14" | "C15" => rng.range(2, 8),
+        _ => rng.range(1, 8),
+    } as usize;
+    let nmut = match focus {
+        "C02" | "C11" | "C18" | "C12" => rng.range(2, 4),
+        "C37" | "C09" => rng.range(1, 2),
+        _ => rng.range(1, 4),
+    } as usize;
+    let heap_mb = match focus {
+        "C10" | "C09" | "C34" => *rng.pick(&[2usize, 4, 8]),
+        _ => *rng.pick(&[4usize, 8, 16, 32]),
     };
-    let workers = rng.range(1, 8) as usize;
-    let nmut = rng.range(1, 4) as usize;
-    let heap_mb = *rng.pick(&[4usize, 8, 16, 32]);
-    let nops = if tier == "quick" { rng.range(50, 250) } else { rng.range(100, 600) } as usize;
-    let cfg = VmConfig {
+    let nops = match (tier, focus) {
+        ("quick", "C34") | ("quick", "C09") => rng.range(150, 500),
+        ("quick", _) => rng.range(50, 250),
+        (_, "C34") | (_, "C09") => rng.range(400, 2500),
+        _ => rng.range(100, 600),
+    } as usize;
+    let dynamic = focus == "C38" && rng.chance(4, 5);
+    let mut cfg = VmConfig {
         plan: plan.to_string(),
         workers,
         heap_bytes: heap_mb << 20,
+        dynamic_heap: if dynamic {
+            let min = *rng.pick(&[1usize, 2, 4]) << 20;
+            Some((min, min * *rng.pick(&[2usize, 4, 16])))
+        } else {
+            None
+        },
         stress_factor: if rng.chance(1, 3) { Some(*rng.pick(&[4096usize, 16384, 65536, 262144, 1 << 20])) } else { None },
         nursery: if rng.chance(1, 2) { Some((1 << 20, *rng.pick(&[1usize << 20, 2 << 20, 4 << 20]))) } else { None },
-        layout32: rng.chance(1, 10),
+        layout32: if focus == "C29" { true } else { rng.chance(1, 10) },
+        no_finalizer: focus != "C06" && rng.chance(1, 20),
+        no_reference_types: focus != "C06" && rng.chance(1, 20),
         full_heap_system_gc: rng.chance(1, 3),
         immix_always_defrag: rng.chance(1, 4),
         immix_defrag_every_block: rng.chance(1, 4),
         defrag_headroom_percent: if rng.chance(1, 4) { Some(*rng.pick(&[1usize, 2, 10, 30])) } else { None },
         count_live_bytes: rng.chance(1, 5),
-        root_batch: *rng.pick(&[1usize, 2, 8, 64]),
-        write_mode: rng.below(2) as u8,
+        disable_concurrent_marking: plan == "ConcurrentImmix" && focus != "C12" && rng.chance(1, 8),
+        root_batch: if focus == "C17" { 1 } else { *rng.pick(&[1usize, 2, 8, 64]) },
+        write_mode: if focus == "C18" || focus == "C05" { 0 } else { rng.below(2) as u8 },
         pinning_roots_pct: if rng.chance(1, 4) { 10 } else { 0 },
         tpinning_roots_pct: if rng.chance(1, 6) { 5 } else { 0 },
-        final_gcs: 1,
+        final_gcs: if focus == "C06" { 2 } else { 1 },
         ..Default::default()
     };
     let strategy = match sr.below(10) {
@@ -137,29 +550,34 @@ pub fn gen_spec(seed: u64, focus: &str, tier: &str) -> RunSpec {
         _ => Strategy::Sequential,
     };
     let mut mask = site::CLASS_LOCK | site::CLASS_SCHED | site::CLASS_BINDING | site::CLASS_SPIN;
-    if sr.chance(1, 2) {
+    let want_meta = matches!(focus, "C17" | "C18" | "C05" | "C12");
+    if want_meta || sr.chance(1, 2) {
         mask |= site::CLASS_META_OBJ;
     }
     if sr.chance(1, 2) {
         mask |= site::CLASS_ALLOC | site::CLASS_POOL;
     }
+    let liveness = matches!(focus, "C14" | "C16" | "C11") && sr.chance(1, 2);
+    let mut meta_every = *sr.pick(&[1u32, 3, 3, 17, 17, 64]);
+    if cfg.stress_factor.is_some() && meta_every == 1 {
+        meta_every = 17;
+    }
     let sched = SchedConfig {
         seed: sr.next_u64(),
         strategy,
         step_cap: 6_000_000,
-        fair_after_step: u64::MAX,
+        fair_after_step: if liveness { sr.range(2_000, 200_000) } else { u64::MAX },
         spurious_ppm: if sr.chance(1, 2) { *sr.pick(&[200u32, 2000, 20000]) } else { 0 },
         stall_ppm: if sr.chance(1, 3) { 500 } else { 0 },
         stall_len: sr.range(10, 2000) as u32,
         mmap_fault_ppm: 0,
         mmap_fault_after: u64::MAX,
-        clock_mode: sr.below(4) as u32,
+        clock_mode: if focus == "C38" { sr.range(1, 3) as u32 } else { sr.below(4) as u32 },
         site_mask: mask,
         max_run: *sr.pick(&[100u64, 500, 2000]),
-        meta_every: *sr.pick(&[1u32, 3, 3, 17, 17, 64]),
+        meta_every,
         explicit: None,
     };
-    let mut cfg = cfg;
     // Combinations with a recorded known finding (known_findings.jsonl) are only generated in a
     // small share of runs ("probe runs"), so that they stay demonstrated without drowning
     // everything else.
@@ -171,7 +589,7 @@ pub fn gen_spec(seed: u64, focus: &str, tier: &str) -> RunSpec {
         // A stress GC under NoGC reaches `unreachable!("GC triggered in nogc")` by design.
         cfg.stress_factor = None;
     }
-    let mut programs: Vec<Vec<Op>> = (0..nmut).map(|_| gen_program(&mut wl, nops, focus)).collect();
+    let mut programs: Vec<Vec<Op>> = (0..nmut).map(|_| gen_program(&mut wl, nops, focus, &prof)).collect();
     if !cfg.kf_probe {
         for p in programs.iter_mut() {
             for op in p.iter_mut() {
@@ -203,6 +621,6 @@ pub fn gen_spec(seed: u64, focus: &str, tier: &str) -> RunSpec {
         cfg,
         sched,
         programs,
-        shape: "mixed".into(),
+        shape: prof.shape.to_string(),
     }
 }
